@@ -92,8 +92,16 @@ def der_len(n):
     return bytes((0x80 | len(b),)) + b
 
 
-def tlv(tag, content):
-    return bytes((tag,)) + der_len(len(content)) + bytes(content)
+def ber_len(n, octets):
+    """X.690 8.1.3: definite length; octets == 0 is the short / minimal form, k > 0 the long form with k length octets
+    (BER allows more than the minimum; RFC 4511 s5.1 only excludes the indefinite form)."""
+    if octets == 0:
+        return der_len(n)
+    return bytes((0x80 | octets,)) + n.to_bytes(octets, 'big')
+
+
+def tlv(tag, content, octets=0):
+    return bytes((tag,)) + ber_len(len(content), octets) + bytes(content)
 
 
 def der_int(v):
@@ -101,11 +109,19 @@ def der_int(v):
     return v.to_bytes(n, 'big', signed=True)
 
 
-def ldap_starttls_request(message_id=1):
+def ldap_starttls_request(message_id=1, forms=None):
+    """forms: {'msg' | 'id' | 'op' | 'name': number of length octets} (default: minimal)"""
+    f = forms or {}
     oid = b'1.3.6.1.4.1.1466.20037'
-    return tlv(0x30, tlv(0x02, der_int(message_id)) + tlv(0x77, tlv(0x80, oid)))
+    return tlv(0x30, tlv(0x02, der_int(message_id), f.get('id', 0)) +
+               tlv(0x77, tlv(0x80, oid, f.get('name', 0)), f.get('op', 0)), f.get('msg', 0))
 
 
-def ldap_starttls_response(result_code, message_id=1, matched_dn=b'', diagnostic=b''):
-    op = tlv(0x0a, der_int(result_code)) + tlv(0x04, matched_dn) + tlv(0x04, diagnostic)
-    return tlv(0x30, tlv(0x02, der_int(message_id)) + tlv(0x78, op))
+def ldap_starttls_response(result_code, message_id=1, matched_dn=b'', diagnostic=b'', forms=None, response_name=None):
+    """forms: {'msg' | 'id' | 'op' | 'code' | 'dn' | 'diag' | 'name': number of length octets} (default: minimal)"""
+    f = forms or {}
+    op = (tlv(0x0a, der_int(result_code), f.get('code', 0)) + tlv(0x04, matched_dn, f.get('dn', 0)) +
+          tlv(0x04, diagnostic, f.get('diag', 0)))
+    if response_name is not None:
+        op += tlv(0x8a, response_name, f.get('name', 0))
+    return tlv(0x30, tlv(0x02, der_int(message_id), f.get('id', 0)) + tlv(0x78, op, f.get('op', 0)), f.get('msg', 0))
